@@ -646,36 +646,80 @@ def r_late_acquire(ctx):
 
     def mentions_unlock(e, m):
         return any(P.self_attr(x, m.self_name) == mu for x in ast.walk(e))
+    # the late test may sit in tryAcquire itself (sync path) or in the nested completion callback (async path)
+    funcs = [ta] + [g for q, g in sorted(P.functions.items()) if q.startswith(ta.qualname + '.')]
     tests = []
-    for n in ast.walk(ta.node):
-        if isinstance(n, ast.If) and isinstance(n.test, ast.Compare) and len(n.test.ops) == 1:
-            t = n.test
-            sides = [t.left, t.comparators[0]]
-            for i in (0, 1):
-                if isinstance(sides[i], ast.BinOp) and isinstance(sides[i].op, ast.Div) and mentions_unlock(sides[i], ta):
-                    tests.append((n, sides[1 - i], sides[i], t.ops[0], i == 0))
+    for g in funcs:
+        gcfg = U.explorer(ctx, g).cfg
+        for n in gcfg.nodes:
+            if n.kind == 'cond' and isinstance(n.ast, ast.Compare) and len(n.ast.ops) == 1:
+                t = n.ast
+                sides = [t.left, t.comparators[0]]
+                for i in (0, 1):
+                    if isinstance(sides[i], ast.BinOp) and isinstance(sides[i].op, ast.Div) and mentions_unlock(sides[i], ta):
+                        tests.append((g, n, sides[1 - i], sides[i], t.ops[0], i == 0))
     inst = 'late-acquire test present on the sync and the async path'
     ctx.tick()
     if len(tests) < 2:
         ctx.violation('ReplLockManager.tryAcquire:late-acquire-test-missing', ta.loc(), 'only %d of the two acquisition paths test "took longer than autoUnlockTime/2"' % len(tests), instance=inst)
         ctx.expect_min(1)
         return
-    shapes = set((unparse(th), type(op).__name__, flipped) for n, el, th, op, flipped in tests)
+    shapes = set((unparse(th), type(op).__name__, flipped) for g, n, el, th, op, flipped in tests)
     if len(shapes) == 1:
-        ctx.ok(inst, ta.loc(tests[0][0]), 'both use `elapsed %s %s`' % ({'Gt': '>', 'GtE': '>=', 'Lt': '<', 'LtE': '<='}.get(type(tests[0][3]).__name__, '?'), unparse(tests[0][2])))
+        ctx.ok(inst, ta.loc(tests[0][1].ast), 'both use `elapsed %s %s`' % ({'Gt': '>', 'GtE': '>=', 'Lt': '<', 'LtE': '<='}.get(type(tests[0][4]).__name__, '?'), unparse(tests[0][3])))
     else:
-        ctx.violation('ReplLockManager.tryAcquire:late-acquire-tests-differ', ta.loc(tests[1][0]), 'the two paths use different tests: %s' % sorted(shapes), instance=inst)
-    for n, el, th, op, flipped in tests:
-        inst = 'late acquisition reported as failure and released (%s path)' % ('async' if any(isinstance(p, ast.FunctionDef) and p is not ta.node and any(x is n for x in ast.walk(p)) for p in ast.walk(ta.node)) else 'sync')
+        ctx.violation('ReplLockManager.tryAcquire:late-acquire-tests-differ', ta.loc(tests[1][1].ast), 'the two paths use different tests: %s' % sorted(shapes), instance=inst)
+
+    def clock_of(g, e, depth=0):
+        """the clock function an expression is read from: a call, or a local / closure variable / parameter bound to one"""
+        if isinstance(e, ast.Call) and not e.args:
+            return unparse(e.func)
+        if isinstance(e, ast.Name) and depth < 4:
+            h = g
+            while h is not None:
+                v = U.single_assign_value(h, e.id)
+                if v is not None:
+                    return clock_of(h, v, depth + 1)
+                if e.id in h.params:
+                    return None
+                h = h.parent
+        return None
+    for g, n, el, th, op, flipped in tests:
+        is_async = g is not ta
+        inst = 'late acquisition reported as failure and released (%s path)' % ('async' if is_async else 'sync')
         ctx.tick()
-        sets_false = any(isinstance(x, ast.Assign) and isinstance(x.value, ast.Constant) and x.value.value is False for x in n.body)
-        releases = any(isinstance(x, ast.Call) and isinstance(x.func, ast.Attribute) and x.func.attr == 'release' for s in n.body for x in ast.walk(s))
+        gex = U.explorer(ctx, g)
+        gcfg = gex.cfg
+        late_pol = (isinstance(op, (ast.Gt, ast.GtE)) and not flipped) or (isinstance(op, (ast.Lt, ast.LtE)) and flipped)
+        # on every path from the "too late" edge to the end: the lock is released and the reported result is set to False
+
+        def ev(m):
+            out = []
+            if m.kind == 'stmt' and m.ast is not None:
+                if isinstance(m.ast, ast.Assign) and isinstance(m.ast.value, ast.Constant) and m.ast.value.value is False and isinstance(m.ast.targets[0], ast.Name) \
+                        and not m.ast.targets[0].id.startswith('cond_i'):
+                    out.append('false')
+                if any(isinstance(x, ast.Call) and isinstance(x.func, ast.Attribute) and x.func.attr == 'release' for x in ast.walk(m.ast)):
+                    out.append('release')
+            return out
+        starts = [d for d, lab in n.succ if lab == ('cond', True)]
+        lit = gex.edge_literal(n, True)
+        sets_false = releases = bool(starts)
+        if starts:
+            r2 = gex.run(start=starts[0], init=frozenset([lit]) if lit is not None else frozenset(), track=ev, follow_exc=False)
+            ends = r2.cstates.get(gcfg.exit.id, ())
+            if not ends:
+                sets_false = releases = False
+            for fs, cnt in ends:
+                d = dict(cnt)
+                sets_false = sets_false and d.get('false', 0) >= 1
+                releases = releases and d.get('release', 0) >= 1
         # threshold is at most half of the auto-unlock time, direction "elapsed > threshold"
         half = isinstance(th, ast.BinOp) and isinstance(th.right, ast.Constant) and th.right.value >= 2
-        direction = (isinstance(op, (ast.Gt, ast.GtE)) and not flipped) or (isinstance(op, (ast.Lt, ast.LtE)) and flipped)
+        direction = late_pol
         elapsed_ok = isinstance(el, ast.BinOp) and isinstance(el.op, ast.Sub)
         if sets_false and releases and half and direction and elapsed_ok:
-            ctx.ok(inst, ta.loc(n), 'result set to False, release issued, threshold `%s`' % unparse(th))
+            ctx.ok(inst, ta.loc(n.ast), 'on every path after the test: result set to False and release issued; threshold `%s`' % unparse(th))
         else:
             why = []
             if not sets_false:
@@ -686,12 +730,25 @@ def r_late_acquire(ctx):
                 why.append('threshold `%s` is not at most half the auto-unlock time' % unparse(th))
             if not direction:
                 why.append('comparison direction')
-            ctx.violation('ReplLockManager.tryAcquire:late-acquire-handling', ta.loc(n), '; '.join(why), instance=inst)
+            ctx.violation('ReplLockManager.tryAcquire:late-acquire-handling', ta.loc(n.ast), '; '.join(why), instance=inst)
+        # both ends of the elapsed time are read from the same clock
+        if elapsed_ok:
+            inst = 'elapsed time subtracts two readings of the same clock (%s path)' % ('async' if is_async else 'sync')
+            ctx.tick()
+            c1, c2 = clock_of(g, el.left), clock_of(g, el.right)
+            if c1 is None or c2 is None:
+                ctx.unproven(inst, ta.loc(n.ast), 'origin of `%s` not traced to clock calls' % unparse(el))
+            elif c1 == c2:
+                ctx.ok(inst, ta.loc(n.ast), 'both from %s()' % c1)
+            else:
+                ctx.violation('ReplLockManager.tryAcquire:elapsed-mixes-clocks', ta.loc(n.ast),
+                              '`%s` subtracts a reading of %s() from a reading of %s(): the difference is meaningless, the late-acquisition test never (or always) fires' % (unparse(el), c2, c1),
+                              instance=inst)
     # the elapsed time measures from before the acquire command was issued
     inst = 'attempt time taken before the acquire is issued'
     ctx.tick()
     first_assign = [s for s in ta.node.body if isinstance(s, ast.Assign)]
-    if first_assign and 'time' in unparse(first_assign[0].value) and first_assign[0].lineno < min(n.lineno for n, *_ in tests):
+    if first_assign and U.is_clock_call(first_assign[0].value) and first_assign[0].lineno < min(n.lineno for g, n, *_ in tests):
         ctx.ok(inst, ta.loc(first_assign[0]), unparse(first_assign[0]))
     else:
         ctx.unproven(inst, ta.loc(), 'attempt time assignment not the first statement')
